@@ -446,3 +446,102 @@ def binding_targets(ctx):
     else:
         ctx.inconclusive.append("vacuity: correlate never completed")
     ctx.sample({"paths": E.paths})
+
+
+# ---------------------------------------------------------------------------------------
+# P5: interface name of a procedure pointer / dummy procedure when an abstract interface of the host and a procedure of an
+# inner scope share a name: the innermost declaration wins (F2008 16.5.1.4 host association)
+# ---------------------------------------------------------------------------------------
+PP_REFS = [("procedure(hook), pointer :: pp", "hook"), ("PROCEDURE(HOOK), POINTER :: PP", "hook"), ("procedure(modonly), pointer :: pp", "modonly"),
+           ("procedure(nowhere), pointer :: pp", "nowhere"), ("integer :: pp", None)]
+
+
+def _pp_program(ra, rb, rz):
+    return ["module m", "abstract interface", "subroutine hook(n)", "integer :: n", "end subroutine hook", "end interface", rz, "contains",
+            "subroutine sa()", ra, "contains", "subroutine hook(x)", "real :: x", "end subroutine hook", "end subroutine sa",
+            "subroutine sb()", rb, "end subroutine sb", "subroutine modonly()", "end subroutine modonly", "end module m"]
+
+
+def pp_rule(scope, name):
+    if name is None:
+        return None
+    if scope == "sa" and name == "hook":
+        return ("sa", "hook", "FortranSubroutine")          # the internal procedure hides the host's abstract interface
+    if name == "hook":
+        return ("m", "hook", "absinterface")
+    if name == "modonly":
+        return ("m", "modonly", "FortranSubroutine")
+    return None
+
+
+def _pp_res(x):
+    return x
+
+
+def _pp_observe(p):
+    m = p.modules[0]
+    sa, sb = m.subroutines[0], m.subroutines[1]
+    def proto(vs):
+        vs = [v for v in vs if choice.apply(lambda n: str(n).lower(), v.name) == "pp"]
+        if len(vs) != 1:
+            return "MISSING"
+        pr = getattr(vs[0], "proto", None)
+        return pr[0] if pr else None
+    absint = []
+    for ai in m.absinterfaces:
+        absint.append(ai)
+        if getattr(ai, "procedure", None) is not None:
+            absint.append(ai.procedure)
+
+    def res(x):
+        if isinstance(x, str) or x is None or x == "MISSING":
+            return None if x != "MISSING" else "MISSING"
+        if any(x is a_ for a_ in absint):
+            return ("m", str(x.name).lower(), "absinterface")
+        return (_decl_scope(x), str(x.name).lower(), type(x).__name__)
+    return {"sa.pp": choice.apply(res, proto(sa.variables)), "sb.pp": choice.apply(res, proto(sb.variables)), "m.pp": choice.apply(res, proto(m.variables))}
+
+
+def replay_pp(w):
+    p = parserh.project_concrete({"a.f90": _pp_program(*w["slots"])}, **SETTINGS)
+    obs = _pp_observe(p)
+    got = {k: (list(_pp_res(v)) if _pp_res(v) else None) for k, v in obs.items()}
+    return got != w["expected"], {"program": _pp_program(*w["slots"]), "ford": got, "fortran_scoping": w["expected"]}
+
+
+@obligation("C07", "P5.procedure-pointer-interface-names", engine="SX(CV)", timeout=900)
+def pp_names(ctx):
+    """procedure(NAME) declarations in a module procedure that has an internal procedure NAME, in its sibling and in the module, where the
+    module also declares an abstract interface NAME: the internal procedure wins inside its host procedure, the abstract interface elsewhere"""
+    import ford.sourceform as sf
+
+    ctx.encode_fn(sf.FortranVariable.correlate)
+    ctx.encode_fn(sf.FortranCodeUnit.correlate)
+    ctx.bounds.update({"reference spellings": len(PP_REFS)})
+
+    def h(E):
+        ra = CV.choice(E, "ra", PP_REFS)
+        rb = CV.choice(E, "rb", PP_REFS)
+        rz = CV.choice(E, "rz", PP_REFS)
+        want = {"sa.pp": choice.apply(lambda n: pp_rule("sa", n), ra[1]), "sb.pp": choice.apply(lambda n: pp_rule("sb", n), rb[1]),
+                "m.pp": choice.apply(lambda n: pp_rule("m", n), rz[1])}
+        E.e.snapshot = lambda m: {"slots": [choice.value_in_model(m, x)[0] for x in (ra, rb, rz)],
+                                  "expected": {k: (list(choice.value_in_model(m, v)) if choice.value_in_model(m, v) else None) for k, v in want.items()}}
+        obs = parserh.project({"a.f90": _pp_program(ra[0], rb[0], rz[0])}, post=_pp_observe, **SETTINGS)
+        E.reachable("correlated")
+        for k in want:
+            E.require(choice.apply(lambda g, w_: _pp_res(g) == w_, obs[k], want[k]), f"{k}: interface resolved to the wrong entity")
+
+    E = sym.Engine(ctx, max_paths=20000, incremental=True)
+    found = E.explore(h)
+    seen = set()
+    for (label, m, pc), snap in zip(found, E.snapshots):
+        if label in seen or not snap:
+            continue
+        seen.add(label)
+        ctx.report(label, snap, replay_pp)
+    if E.reached.get("correlated"):
+        ctx.twins += 1
+    else:
+        ctx.inconclusive.append("vacuity: correlate never completed")
+    ctx.sample({"paths": E.paths})
